@@ -38,7 +38,7 @@ impl Out {
 
 /// Element types the generic containers are instantiated at.  A value is projected to a pair of
 /// integers (real part, imaginary part); real types have imaginary part 0.
-pub trait ElemBase: Copy + Clone + ohsl::Number + std::fmt::Debug + 'static {
+pub trait ElemBase: Copy + Clone + ohsl::Number + std::fmt::Debug + Send + Sync + 'static {
     const CX: bool;
     const NAME: &'static str;
     fn from_ri(re: i64, im: i64) -> Self;
